@@ -31,7 +31,7 @@ Qed.
 
 (** ---------- the simulation relation ---------- *)
 
-Definition abs (r : rq) : mreq := mkM (r_finished r) (r_disc r) (r_ndef r) (r_pending r).
+Definition abs (r : rq) : mreq := mkM (r_finished r) (r_disc r) (r_ndef r) (map fst (r_pending r)).
 
 Definition open_ok (s : st) (m : mon) : Prop :=
   match m_open m with
@@ -50,7 +50,9 @@ Definition R (ex : list nat) (s : st) (m : mon) : Prop :=
   (s_handling s = false -> s_inchan s = false) /\
   (forall i r, nth_error (s_rq s) i = Some r -> ~ In i ex -> r_finished r || r_disc r = true -> r_pending r = []) /\
   (s_handling s = false -> s_waiting s = false -> m_paused m = false) /\
-  (s_lost s = false -> forall i r, nth_error (s_rq s) i = Some r -> r_disc r = false).
+  (s_lost s = false -> forall i r, nth_error (s_rq s) i = Some r -> r_disc r = false) /\
+  (forall i r, nth_error (s_rq s) i = Some r -> forall d, In d (map fst (r_pending r)) -> d < r_ndef r) /\
+  m_gone m = s_lost s.
 
 Lemma R_quiescent s m : R [] s m -> quiescent m = true.
 Proof.
@@ -65,6 +67,7 @@ Proof.
   - intros i r H; destruct i; discriminate.
   - intros i r H; destruct i; discriminate.
   - intros _ i r H; destruct i; discriminate.
+  - intros i r H; destruct i; discriminate.
 Qed.
 
 (** an open request is the last one and is the only unfinished one *)
@@ -85,14 +88,15 @@ Definition same_ctl (s s' : st) : Prop :=
 Lemma R_upd ex s m s' m' i r r' :
   R ex s m -> nth_error (s_rq s) i = Some r ->
   s_rq s' = upd (s_rq s) i r' -> same_ctl s s' ->
-  m_rq m' = upd (m_rq m) i (abs r') -> m_open m' = m_open m -> m_paused m' = m_paused m ->
+  m_rq m' = upd (m_rq m) i (abs r') -> m_open m' = m_open m -> m_paused m' = m_paused m -> m_gone m' = m_gone m ->
   r_finished r' = r_finished r -> r_disc r' = r_disc r ->
   (m_open m = Some i -> m_head m' = r_started r' /\ m_dead m' = r_disc r' /\ m_nw m' = r_nw r') ->
   (m_open m <> Some i -> m_head m' = m_head m /\ m_dead m' = m_dead m /\ m_nw m' = m_nw m) ->
   (~ In i ex -> r_finished r' || r_disc r' = true -> r_pending r' = []) ->
+  (forall d, In d (map fst (r_pending r')) -> d < r_ndef r') ->
   R ex s' m'.
 Proof.
-  unfold R. intros (Hrq & Ho & HC & HD & HF & HG & HJ) Hi Hs (C1 & C2 & C3 & C4) Hm Hop Hpa Hfin Hdisc Hcur Hoth Hpend.
+  unfold R. intros (Hrq & Ho & HC & HD & HF & HG & HJ & HK & HL) Hi Hs (C1 & C2 & C3 & C4) Hm Hop Hpa Hgo Hfin Hdisc Hcur Hoth Hpend HK'.
   pose proof (nth_some_lt _ _ _ Hi) as Hlt.
   assert (Hnth : forall j rj, nth_error (s_rq s') j = Some rj ->
                    (j = i /\ rj = r') \/ (j <> i /\ nth_error (s_rq s) j = Some rj)).
@@ -115,6 +119,8 @@ Proof.
   - intros j rj Hj Hex Hc. destruct (Hnth j rj Hj) as [[-> ->]|[Hne Hj']]; [exact (Hpend Hex Hc)|exact (HF j rj Hj' Hex Hc)].
   - rewrite C2, C3, Hpa. exact HG.
   - rewrite C4. intros Hl j rj Hj. destruct (Hnth j rj Hj) as [[-> ->]|[Hne Hj']]; [rewrite Hdisc; exact (HJ Hl i r Hi)|exact (HJ Hl j rj Hj')].
+  - intros j rj Hj. destruct (Hnth j rj Hj) as [[-> ->]|[Hne Hj']]; [exact HK'|exact (HK j rj Hj')].
+  - rewrite Hgo, C4. exact HL.
 Qed.
 
 Lemma same_ctl_set_rq s l : same_ctl s (set_rq s l).
@@ -143,155 +149,419 @@ Proof.
   destruct Ho as (_ & _ & r0 & H0 & _ & A & B & C). rewrite Hi in H0. inversion H0; subst r0. auto.
 Qed.
 
-(** ---------- notifyFinish / write / (un)registerProducer / refused finish ---------- *)
+(** ---------- finished / disconnected requests stay so, the list of requests only grows ---------- *)
 
-Lemma app_simple_sim ex s m i a s' evs :
-  R ex s m -> ~ In i ex -> app_simple i a s = Some (s', evs) ->
-  exists m', mon_run m evs = Some m' /\ R ex s' m'.
+Definition keeps (s s' : st) : Prop :=
+  length (s_rq s) <= length (s_rq s') /\
+  forall j r, nth_error (s_rq s) j = Some r ->
+              exists r', nth_error (s_rq s') j = Some r' /\
+                         (r_finished r = true -> r_finished r' = true) /\ (r_disc r = true -> r_disc r' = true).
+
+Lemma keeps_refl s : keeps s s.
+Proof. split; [lia|]. intros j r H. exists r. auto. Qed.
+
+Lemma keeps_trans a b c : keeps a b -> keeps b c -> keeps a c.
 Proof.
-  intros HR Hex. unfold app_simple. destruct (nth_error (s_rq s) i) as [r|] eqn:Hi.
-  2:{ intro H; inversion H; subst. exists m. split; [reflexivity|exact HR]. }
-  pose proof (mon_nth _ _ _ _ _ HR Hi) as Hmi.
-  destruct a.
-  - (* notifyFinish *)
-    destruct (r_disc r || r_finished r) eqn:Elate; intro H; inversion H; subst; clear H.
-    + (* after completion: fires at once *)
-      assert (Hp : r_pending r = []).
-      { destruct HR as (_ & _ & _ & _ & HF & _). apply (HF i r Hi Hex). rewrite orb_comm. exact Elate. }
-      cbn [mon_run mon_step]. rewrite Hmi. cbn [abs x_ndef x_fin x_lost x_pend]. rewrite Nat.eqb_refl.
-      cbn [m_rq]. rewrite nth_upd_same by (rewrite (proj1 HR), map_length; eapply nth_some_lt, Hi).
-      cbn [x_pend x_fin x_lost x_ndef]. rewrite existsb_app_last. cbn [andb].
-      assert ((if negb (r_disc r) then r_finished r else r_disc r) = true) as ->.
-      { destruct (r_disc r); cbn in *; [reflexivity|exact Elate]. }
-      eexists. split; [reflexivity|].
-      eapply (R_upd ex s m _ _ i r); try eassumption; try reflexivity.
-      * apply same_ctl_set_rq.
-      * cbn [m_rq]. rewrite upd_upd, Hp. cbn [app remove_first]. rewrite Nat.eqb_refl. reflexivity.
-      * intros Hop. cbn. exact (open_facts _ _ _ _ _ HR Hi Hop).
-      * intros _. cbn. auto.
-      * intros _ _. exact Hp.
-    + cbn [mon_run mon_step]. rewrite Hmi. cbn [abs x_ndef x_fin x_lost x_pend]. rewrite Nat.eqb_refl.
-      eexists. split; [reflexivity|].
-      eapply (R_upd ex s m _ _ i r); try eassumption; try reflexivity.
-      * apply same_ctl_set_rq.
-      * intros Hop. cbn. exact (open_facts _ _ _ _ _ HR Hi Hop).
-      * intros _. cbn. auto.
-      * intros _. cbn [r_finished r_disc]. apply orb_false_iff in Elate as [E1 E2]. rewrite E1, E2. discriminate.
-  - (* write *)
-    destruct (r_finished r) eqn:Ef.
-    { intro H; inversion H; subst. exists m. split; [reflexivity|exact HR]. }
-    destruct (r_disc r) eqn:Ed.
-    { intro H; inversion H; subst. exists m. split; [reflexivity|exact HR]. }
-    destruct (live_is_open _ _ _ _ _ HR Hi Ef) as (Hop & Hh & Hd & Hn & _).
-    unfold do_head. destruct (r_started r) eqn:Es; intro H; inversion H; subst; clear H.
-    + cbn [app mon_run mon_step]. rewrite (is_open_true _ _ Hop), Hh, Hd, Ed, Hn, Nat.eqb_refl. cbn [andb negb].
-      eexists. split; [reflexivity|].
-      eapply (R_upd ex s m _ _ i r); try eassumption; try reflexivity.
-      * apply same_ctl_set_rq.
-      * cbn [m_rq]. unfold abs. cbn. rewrite upd_nth_same; [reflexivity|]. rewrite Hmi. unfold abs. rewrite ?Ef, ?Ed. reflexivity.
-      * cbn. congruence.
-      * intros _. cbn. rewrite ?Hn. auto.
-      * intros C. congruence.
-      * intros _. cbn [r_finished r_disc]. rewrite ?Ef, ?Ed. discriminate.
-    + cbn [app mon_run mon_step]. rewrite (is_open_true _ _ Hop), Hh, Hd, Ed. cbn [andb negb m_open m_head m_dead m_nw is_open].
-      unfold is_open. cbn [m_open]. rewrite Hop, Nat.eqb_refl, Hn, Nat.eqb_refl. cbn [andb negb].
-      eexists. split; [reflexivity|].
-      eapply (R_upd ex s m _ _ i r); try eassumption; try reflexivity.
-      * apply same_ctl_set_rq.
-      * cbn [m_rq]. unfold abs. cbn. rewrite upd_nth_same; [reflexivity|]. rewrite Hmi. unfold abs. rewrite ?Ef, ?Ed. reflexivity.
-      * cbn. congruence.
-      * cbn. congruence.
-      * intros _. cbn. rewrite ?Hn. auto.
-      * intros C. congruence.
-      * intros _. cbn [r_finished r_disc]. rewrite ?Ef, ?Ed. discriminate.
-  - (* finish that does not go through *)
-    destruct (r_disc r); [intro H; inversion H; subst; exists m; split; [reflexivity|exact HR]|].
-    destruct (r_finished r); [intro H; inversion H; subst; exists m; split; [reflexivity|exact HR]|discriminate].
-  - (* registerProducer *)
-    destruct (r_prod r || s_cprod s || r_finished r || r_disc r);
-      intro H; inversion H; subst; clear H; exists m; (split; [reflexivity|]); [exact HR|].
-    eapply (R_upd ex s m _ m i r); try eassumption; try reflexivity.
-    + repeat split.
-    + unfold abs. cbn. rewrite upd_nth_same; [reflexivity|]. rewrite Hmi. reflexivity.
-    + intros Hop. cbn. exact (open_facts _ _ _ _ _ HR Hi Hop).
-    + auto.
-    + intros _ Hc. destruct HR as (_ & _ & _ & _ & HF & _). exact (HF i r Hi Hex Hc).
-  - (* unregisterProducer *)
-    destruct (r_finished r || r_disc r);
-      intro H; inversion H; subst; clear H; exists m; (split; [reflexivity|]); [exact HR|].
-    eapply (R_upd ex s m _ m i r); try eassumption; try reflexivity.
-    + repeat split.
-    + unfold abs. cbn. rewrite upd_nth_same; [reflexivity|]. rewrite Hmi. reflexivity.
-    + intros Hop. cbn. exact (open_facts _ _ _ _ _ HR Hi Hop).
-    + auto.
-    + intros _ Hc. destruct HR as (_ & _ & _ & _ & HF & _). exact (HF i r Hi Hex Hc).
+  intros [L1 K1] [L2 K2]. split; [lia|]. intros j r H. destruct (K1 j r H) as (r1 & H1 & F1 & D1).
+  destruct (K2 j r1 H1) as (r2 & H2 & F2 & D2). exists r2. auto.
 Qed.
 
-(** ---------- firing the Deferreds of a completed request ---------- *)
-
-Lemma fire_run i (ok : bool) : forall l m x, nth_error (m_rq m) i = Some x -> x_pend x = l ->
-  (if ok then x_fin x else x_lost x) = true ->
-  mon_run m (map (fun d => EFired i d ok) l) =
-  Some (mkMon (upd (m_rq m) i (mkM (x_fin x) (x_lost x) (x_ndef x) [])) (m_open m) (m_head m) (m_dead m) (m_nw m) (m_paused m)).
+Lemma keeps_upd s s' i r r' : nth_error (s_rq s) i = Some r -> s_rq s' = upd (s_rq s) i r' ->
+  (r_finished r = true -> r_finished r' = true) -> (r_disc r = true -> r_disc r' = true) -> keeps s s'.
 Proof.
-  induction l as [|d l IH]; intros m x Hn Hp Hok.
-  - cbn. destruct m, x. cbn in *. subst. rewrite upd_nth_same by exact Hn. reflexivity.
-  - cbn [map mon_run mon_step]. rewrite Hn, Hp. cbn [existsb]. rewrite Nat.eqb_refl. cbn [orb andb]. rewrite Hok.
-    cbn [remove_first]. rewrite Nat.eqb_refl.
-    rewrite (IH _ (mkM (x_fin x) (x_lost x) (x_ndef x) l)); cbn [m_rq m_open m_head m_dead m_nw m_paused x_fin x_lost x_ndef x_pend].
-    + rewrite upd_upd. reflexivity.
-    + apply nth_upd_same. eapply nth_some_lt, Hn.
-    + reflexivity.
-    + exact Hok.
+  intros Hi Hs Hf Hd. split; [rewrite Hs, upd_length; lia|]. intros j rj Hj. rewrite Hs.
+  destruct (Nat.eq_dec j i) as [->|Hne].
+  - rewrite nth_upd_same by (eapply nth_some_lt, Hi). exists r'. rewrite Hi in Hj. inversion Hj; subst rj. auto.
+  - rewrite nth_upd_other by congruence. exists rj. auto.
 Qed.
+
+Lemma keeps_same_rq s s' : s_rq s' = s_rq s -> keeps s s'.
+Proof. intro E. split; [rewrite E; lia|]. intros j r H. exists r. rewrite E. auto. Qed.
+
+(** request i has finished (ok) / lost its connection (not ok) *)
+Definition flag_ok (s : st) (i : nat) (ok : bool) : Prop :=
+  exists r, nth_error (s_rq s) i = Some r /\ (if ok then r_finished r else r_disc r) = true.
+
+Definition completed (s : st) (i : nat) : Prop :=
+  exists r, nth_error (s_rq s) i = Some r /\ r_disc r || r_finished r = true.
+
+Lemma keeps_flag s s' i ok : keeps s s' -> flag_ok s i ok -> flag_ok s' i ok.
+Proof. intros [_ K] (r & H & F). destruct (K i r H) as (r' & H' & A & B). exists r'. split; [exact H'|]. destruct ok; auto. Qed.
+
+Lemma keeps_completed s s' i : keeps s s' -> completed s i -> completed s' i.
+Proof.
+  intros [_ K] (r & H & F). destruct (K i r H) as (r' & H' & A & B). exists r'. split; [exact H'|].
+  apply orb_true_iff in F as [F|F]; [rewrite (B F); reflexivity|rewrite (A F); apply orb_true_r].
+Qed.
+
+Lemma flag_completed s i ok : flag_ok s i ok -> completed s i.
+Proof. intros (r & H & F). exists r. split; [exact H|]. destruct ok; rewrite F; [apply orb_true_r|reflexivity]. Qed.
+
+Definition pend_of (s : st) (i : nat) : option (list (nat * list ract)) := option_map r_pending (nth_error (s_rq s) i).
+
+Lemma remove_first_fresh d l : ~ In d l -> remove_first d (l ++ [d]) = l.
+Proof.
+  induction l as [|y l IH]; intro H; cbn; [rewrite Nat.eqb_refl; reflexivity|].
+  destruct (Nat.eqb d y) eqn:E; [apply Nat.eqb_eq in E; subst; exfalso; apply H; left; reflexivity|].
+  rewrite IH; [reflexivity|]. intro C. apply H. right. exact C.
+Qed.
+
+(** ---------- notifyFinish on a completed request: the new Deferred fires at once ---------- *)
+
+Lemma notify_now_sim ex s m i s' evs : R ex s m -> completed s i -> notify_now i s = (s', evs) ->
+  exists m', mon_run m evs = Some m' /\ R ex s' m' /\ keeps s s' /\ (forall j, pend_of s' j = pend_of s j).
+Proof.
+  intros HR (r & Hi & Hc). unfold notify_now. rewrite Hi. intro E; inversion E; subst; clear E.
+  pose proof (mon_nth _ _ _ _ _ HR Hi) as Hmi. pose proof (nth_some_lt _ _ _ Hi) as Hlt.
+  assert (Hfresh : ~ In (r_ndef r) (map fst (r_pending r))).
+  { destruct HR as (_ & _ & _ & _ & _ & _ & _ & HK & _). intro C. apply (HK i r Hi) in C. lia. }
+  cbn [mon_run mon_step]. rewrite Hmi. cbn [abs x_ndef x_fin x_lost x_pend]. rewrite Nat.eqb_refl.
+  cbn [with_rq m_rq]. rewrite nth_upd_same by (rewrite (proj1 HR), map_length; exact Hlt).
+  cbn [x_pend x_fin x_lost x_ndef]. rewrite existsb_app_last. cbn [andb].
+  assert ((if negb (r_disc r) then r_finished r else r_disc r) = true) as ->.
+  { destruct (r_disc r); cbn in *; [reflexivity|exact Hc]. }
+  eexists. split; [reflexivity|]. split; [|split].
+  - eapply (R_upd ex s m _ _ i r); try eassumption; try reflexivity.
+    + apply same_ctl_set_rq.
+    + cbn [m_rq with_rq]. rewrite upd_upd, remove_first_fresh by exact Hfresh. reflexivity.
+    + intros Hop. cbn. exact (open_facts _ _ _ _ _ HR Hi Hop).
+    + intros _. cbn. auto.
+    + intros Hex Hc'. cbn [r_pending]. destruct HR as (_ & _ & _ & _ & HF & _). exact (HF i r Hi Hex Hc').
+    + intros d Hd. cbn [r_pending r_ndef] in *. destruct HR as (_ & _ & _ & _ & _ & _ & _ & HK & _). pose proof (HK i r Hi d Hd). lia.
+  - eapply keeps_upd; [exact Hi|reflexivity|cbn; auto|cbn; auto].
+  - intros j. unfold pend_of. cbn [s_rq set_rq]. destruct (Nat.eq_dec j i) as [->|Hne].
+    + rewrite nth_upd_same by exact Hlt. rewrite Hi. reflexivity.
+    + rewrite nth_upd_other by congruence. reflexivity.
+Qed.
+
+(** ---------- firing the Deferreds of a completed request, with their reactions ---------- *)
+
+Definition react_spec (rf : nat -> st -> ract -> st * list ev) : Prop :=
+  forall ex s m i a s' evs, R ex s m -> completed s i -> rf i s a = (s', evs) ->
+    exists m', mon_run m evs = Some m' /\ R ex s' m' /\ keeps s s' /\
+               (forall j, completed s j -> pend_of s' j = pend_of s j).
+
+Section Firing.
+  Variable rf : nat -> st -> ract -> st * list ev.
+  Hypothesis Hrf : react_spec rf.
+
+  Lemma run_react_sim re : forall ex s m i s' evs, R ex s m -> completed s i -> run_react rf i re s = (s', evs) ->
+    exists m', mon_run m evs = Some m' /\ R ex s' m' /\ keeps s s' /\
+               (forall j, completed s j -> pend_of s' j = pend_of s j).
+  Proof.
+    induction re as [|a re IH]; intros ex s m i s' evs HR Hc; cbn [run_react].
+    - intro E; inversion E; subst. exists m. split; [reflexivity|]. split; [exact HR|]. split; [apply keeps_refl|auto].
+    - destruct (rf i s a) as [s1 e1] eqn:E1. destruct (run_react rf i re s1) as [s2 e2] eqn:E2.
+      intro E; inversion E; subst; clear E.
+      destruct (Hrf _ _ _ _ _ _ _ HR Hc E1) as (m1 & A1 & R1 & K1 & P1).
+      destruct (IH _ _ _ _ _ _ R1 (keeps_completed _ _ _ K1 Hc) E2) as (m2 & A2 & R2 & K2 & P2).
+      exists m2. split; [rewrite mon_run_app, A1; exact A2|]. split; [exact R2|]. split; [eapply keeps_trans; eauto|].
+      intros j Hj. rewrite (P2 j (keeps_completed _ _ _ K1 Hj)). apply P1, Hj.
+  Qed.
+
+  Lemma fire_list_sim l : forall ex s m i (ok : bool) s' evs,
+    R ex s m -> In i ex -> pend_of s i = Some l -> flag_ok s i ok -> fire_list rf i ok l s = (s', evs) ->
+    exists m', mon_run m evs = Some m' /\ R ex s' m' /\ keeps s s' /\ pend_of s' i = Some [] /\
+               (forall j, j <> i -> completed s j -> pend_of s' j = pend_of s j).
+  Proof.
+    induction l as [|[d re] l IH]; intros ex s m i ok s' evs HR Hex Hp Hf; cbn [fire_list].
+    - intro E; inversion E; subst. exists m. split; [reflexivity|]. split; [exact HR|]. split; [apply keeps_refl|]. split; auto.
+    - unfold pend_of in Hp. destruct (nth_error (s_rq s) i) as [r|] eqn:Hi; [|discriminate Hp]. cbn in Hp. inversion Hp as [Hpl]; clear Hp.
+      pose proof (nth_some_lt _ _ _ Hi) as Hlt. pose proof (mon_nth _ _ _ _ _ HR Hi) as Hmi.
+      set (r1 := mkRq (r_started r) (r_finished r) (r_disc r) l (r_ndef r) (r_nw r) (r_prod r)).
+      assert (Es1 : set_pending i l s = set_rq s (upd (s_rq s) i r1)) by (unfold set_pending; rewrite Hi; reflexivity).
+      rewrite Es1. set (s1 := set_rq s (upd (s_rq s) i r1)).
+      destruct (run_react rf i re s1) as [s2 e2] eqn:E2. destruct (fire_list rf i ok l s2) as [s3 e3] eqn:E3.
+      intro E; inversion E; subst; clear E.
+      assert (Hflag : (if ok then r_finished r else r_disc r) = true).
+      { destruct Hf as (r' & Hi' & F). rewrite Hi in Hi'. inversion Hi'; subst r'. exact F. }
+      set (m1 := with_rq m (upd (m_rq m) i (mkM (r_finished r) (r_disc r) (r_ndef r) (map fst l)))).
+      assert (Hstep : mon_step m (EFired i d ok) = Some m1).
+      { cbn [mon_step]. rewrite Hmi. cbn [abs x_pend x_fin x_lost x_ndef]. rewrite Hpl. cbn [map fst existsb remove_first].
+        rewrite Nat.eqb_refl. cbn [orb andb]. rewrite Hflag. reflexivity. }
+      assert (R1 : R ex s1 m1).
+      { eapply (R_upd ex s m s1 m1 i r r1); try eassumption; try reflexivity.
+        - apply same_ctl_set_rq.
+        - intros Hop. cbn. exact (open_facts _ _ _ _ _ HR Hi Hop).
+        - intros _. cbn. auto.
+        - intros C. contradiction.
+        - intros d' Hd'. cbn [r1 r_pending r_ndef] in *. destruct HR as (_ & _ & _ & _ & _ & _ & _ & HK & _).
+          apply (HK i r Hi). rewrite Hpl. cbn. right. exact Hd'. }
+      assert (K01 : keeps s s1) by (eapply keeps_upd; [exact Hi|reflexivity|cbn; auto|cbn; auto]).
+      assert (Hp1 : forall j, pend_of s1 j = if Nat.eqb j i then Some l else pend_of s j).
+      { intros j. unfold pend_of, s1. cbn [s_rq set_rq]. destruct (Nat.eqb j i) eqn:Ej.
+        - apply Nat.eqb_eq in Ej. subst j. rewrite nth_upd_same by exact Hlt. reflexivity.
+        - apply Nat.eqb_neq in Ej. rewrite nth_upd_other by congruence. reflexivity. }
+      pose proof (flag_completed _ _ _ Hf) as Hc.
+      destruct (run_react_sim re ex s1 m1 i s2 e2 R1 (keeps_completed _ _ _ K01 Hc) E2) as (m2 & A2 & R2 & K12 & P2).
+      assert (Hp2 : pend_of s2 i = Some l).
+      { rewrite (P2 i (keeps_completed _ _ _ K01 Hc)), Hp1, Nat.eqb_refl. reflexivity. }
+      destruct (IH ex s2 m2 i ok s' e3 R2 Hex Hp2 (keeps_flag _ _ _ _ (keeps_trans _ _ _ K01 K12) Hf) E3)
+        as (m3 & A3 & R3 & K23 & P3 & O3).
+      exists m3. split; [cbn [mon_run]; rewrite Hstep, mon_run_app, A2; exact A3|]. split; [exact R3|].
+      split; [eapply keeps_trans; [exact K01|eapply keeps_trans; eauto]|]. split; [exact P3|].
+      intros j Hne Hj. rewrite (O3 j Hne (keeps_completed _ _ _ (keeps_trans _ _ _ K01 K12) Hj)).
+      rewrite (P2 j (keeps_completed _ _ _ K01 Hj)), Hp1.
+      assert (Nat.eqb j i = false) as -> by (apply Nat.eqb_neq; exact Hne). reflexivity.
+  Qed.
+End Firing.
 
 Lemma R_shrink i ex s m : R (i :: ex) s m -> (forall r, nth_error (s_rq s) i = Some r -> r_pending r = []) -> R ex s m.
 Proof.
-  unfold R. intros (A & B & C & D & F & G & J) Hp. repeat split; auto.
+  unfold R. intros (A & B & C & D & F & G & J & K & L) Hp. repeat split; auto.
   intros j r Hj Hex Hc. destruct (Nat.eq_dec j i) as [->|Hne]; [apply Hp, Hj|].
   apply (F j r Hj); [|exact Hc]. intros [E|E]; [congruence|contradiction].
 Qed.
 
 Lemma R_grow i ex s m : R ex s m -> R (i :: ex) s m.
 Proof.
-  unfold R. intros (A & B & C & D & F & G & J). repeat split; auto.
+  unfold R. intros (A & B & C & D & F & G & J & K & L). repeat split; auto.
   intros j r Hj Hex Hc. apply (F j r Hj); [|exact Hc]. intro E. apply Hex. right. exact E.
 Qed.
 
-Lemma fire_sim ex s m i (ok : bool) r : R (i :: ex) s m -> nth_error (s_rq s) i = Some r ->
-  (if ok then r_finished r else r_disc r) = true ->
-  exists m', mon_run m (snd (fire i ok s)) = Some m' /\ R ex (fst (fire i ok s)) m'.
+Lemma R_ctl ex s m s' : R ex s m -> s_rq s' = s_rq s -> same_ctl s s' -> R ex s' m.
 Proof.
-  intros HR Hi Hok. unfold fire. rewrite Hi. cbn [fst snd].
-  pose proof (mon_nth _ _ _ _ _ HR Hi) as Hmi.
-  rewrite (fire_run i ok (r_pending r) m (abs r) Hmi eq_refl) by (destruct ok; exact Hok).
-  eexists. split; [reflexivity|]. apply (R_shrink i).
-  - eapply (R_upd (i :: ex) s m _ _ i r); try eassumption; try reflexivity.
-    + apply same_ctl_set_rq.
+  unfold R, open_ok. intros (A & B & C & D & F & G & J & K & L) E (C1 & C2 & C3 & C4).
+  rewrite E, C1, C2, C3, C4. repeat split; auto.
+Qed.
+
+  Lemma react0_spec sync : react_spec (react0 sync).
+  Proof.
+    intros ex s m i a s' evs HR Hc. unfold react0. destruct (nth_error (s_rq s) i) as [r|] eqn:Hi.
+    2:{ intro E; inversion E; subst. exists m. split; [reflexivity|]. split; [exact HR|]. split; [apply keeps_refl|auto]. }
+    destruct a.
+    - intro E; inversion E; subst. exists m. split; [destruct (r_disc r); reflexivity|]. split; [exact HR|]. split; [apply keeps_refl|auto].
+    - intro E; inversion E; subst. exists m. split; [destruct (r_finished r); reflexivity|]. split; [exact HR|]. split; [apply keeps_refl|auto].
+    - intro E. destruct (notify_now_sim _ _ _ _ _ _ HR Hc E) as (m' & A & B & K & P). exists m'. auto.
+    - destruct sync; intro E; inversion E; subst.
+      + exists m. split; [reflexivity|]. split; [eapply R_ctl; [exact HR|reflexivity|repeat split]|].
+        split; [apply keeps_same_rq; reflexivity|auto].
+      + exists m. split; [reflexivity|]. split; [exact HR|]. split; [apply keeps_refl|auto].
+  Qed.
+
+  Lemma lose0_sim sync ex s m s' evs : R ex s m -> lose0 sync s = (s', evs) ->
+    exists m', mon_run m evs = Some m' /\ R ex s' m' /\ keeps s s' /\
+               (forall j, completed s j -> pend_of s' j = pend_of s j).
+  Proof.
+    intros HR. unfold lose0. destruct (s_lost s) eqn:El.
+    { intro E; inversion E; subst. exists m. split; [reflexivity|]. split; [exact HR|]. split; [apply keeps_refl|auto]. }
+    pose proof HR as (Hrq & Ho & HC & HD & HF & HG & HJ & HK & HL).
+    assert (Hgone : mon_step m EGone = Some (mkMon (m_rq m) (m_open m) (m_head m) (m_dead m) (m_nw m) (m_paused m) true)).
+    { cbn [mon_step]. rewrite HL, El. reflexivity. }
+    destruct (s_inchan s) eqn:Ein.
+    - unfold open_ok in Ho. destruct (m_open m) as [i|] eqn:Hop; [|congruence].
+      destruct Ho as (_ & HS & r & Hi & Hf & Hh & Hd & Hn).
+      replace (pred (length (s_rq s))) with i by lia. rewrite Hi.
+      pose proof (HJ El i r Hi) as Hdisc. pose proof (nth_some_lt _ _ _ Hi) as Hlt.
+      set (r' := mkRq (r_started r) (r_finished r) true (r_pending r) (r_ndef r) (r_nw r) (r_prod r)).
+      set (s2 := set_rq (mkSt (s_rq s) (s_handling s) true (s_recv s) (s_cons s) (s_waiting s) (s_cprod s) (s_closing s) true)
+                        (upd (s_rq s) i r')).
+      set (m2 := mkMon (upd (m_rq m) i (mkM (r_finished r) true (r_ndef r) (map fst (r_pending r)))) (Some i) (m_head m) true
+                       (m_nw m) (m_paused m) true).
+      assert (Hstep : mon_run m [EGone; ELost i] = Some m2).
+      { cbn [mon_run]. rewrite Hgone. cbn [mon_step m_rq m_dead m_gone]. rewrite (mon_nth _ _ _ _ _ HR Hi).
+        unfold is_open. cbn [m_open m_head m_nw m_paused]. rewrite ?Hop, Nat.eqb_refl, Hd, Hdisc. reflexivity. }
+      assert (R2 : R (i :: ex) s2 m2).
+      { unfold R. refine (conj _ (conj _ (conj _ (conj _ (conj _ (conj _ (conj _ (conj _ _)))))))).
+        - unfold m2, s2. cbn [m_rq s_rq set_rq]. rewrite map_upd, Hrq. reflexivity.
+        - unfold open_ok, m2, s2. cbn [m_open s_inchan s_rq set_rq m_head m_dead m_nw]. rewrite upd_length.
+          split; [reflexivity|]. split; [exact HS|]. exists r'. rewrite nth_upd_same by exact Hlt. repeat split; auto.
+        - intros j rj Hj. unfold s2 in *. cbn [s_rq set_rq s_inchan] in *. rewrite upd_length.
+          destruct (Nat.eq_dec j i) as [->|Hne]; [left; auto|].
+          rewrite nth_upd_other in Hj by congruence.
+          destruct (HC j rj Hj) as [[_ X]|X]; [left; split; [reflexivity|exact X]|right; exact X].
+        - unfold s2. cbn. intros Hh0. pose proof (HD Hh0). congruence.
+        - intros j rj Hj Hex Hc. unfold s2 in Hj. cbn [s_rq set_rq] in Hj.
+          destruct (Nat.eq_dec j i) as [->|Hne]; [exfalso; apply Hex; left; reflexivity|].
+          rewrite nth_upd_other in Hj by congruence. apply (HF j rj Hj); [|exact Hc]. intro C. apply Hex. right. exact C.
+        - unfold s2, m2. cbn. exact HG.
+        - unfold s2. cbn. discriminate.
+        - intros j rj Hj. unfold s2 in Hj. cbn [s_rq set_rq] in Hj. destruct (Nat.eq_dec j i) as [->|Hne].
+          + rewrite nth_upd_same in Hj by exact Hlt. inversion Hj; subst rj. cbn. exact (HK i r Hi).
+          + rewrite nth_upd_other in Hj by congruence. exact (HK j rj Hj).
+        - reflexivity. }
+      assert (Hp2 : pend_of s2 i = Some (r_pending r)).
+      { unfold pend_of, s2. cbn [s_rq set_rq]. rewrite nth_upd_same by exact Hlt. reflexivity. }
+      assert (Hf2 : flag_ok s2 i false).
+      { exists r'. split; [unfold s2; cbn [s_rq set_rq]; apply nth_upd_same, Hlt|reflexivity]. }
+      assert (K02 : keeps s s2).
+      { eapply keeps_upd; [exact Hi|reflexivity|cbn; auto|cbn; auto]. }
+      fold r'. fold s2. destruct (fire0 sync i false (r_pending r) s2) as [s3 e3] eqn:Ef.
+      destruct (fire_list_sim (react0 sync) (react0_spec sync) _ _ _ _ _ _ _ _ R2 (or_introl eq_refl) Hp2 Hf2 Ef)
+        as (m3 & A3 & R3 & K23 & P3 & O3).
+      intro E; inversion E; subst; clear E.
+      exists m3. split.
+      { change (EGone :: ELost i :: e3) with ([EGone; ELost i] ++ e3). rewrite mon_run_app, Hstep. exact A3. }
+      split.
+      { apply (R_shrink i); [exact R3|]. intros r3 H3. unfold pend_of in P3. rewrite H3 in P3. cbn in P3. congruence. }
+      split; [eapply keeps_trans; eauto|].
+      intros j Hj. assert (Hne : j <> i).
+      { intro C. subst j. destruct Hj as (rj & Hj & Fj). rewrite Hi in Hj. inversion Hj; subst rj. rewrite Hdisc, Hf in Fj. discriminate. }
+      rewrite (O3 j Hne (keeps_completed _ _ _ K02 Hj)). unfold pend_of, s2. cbn [s_rq set_rq].
+      rewrite nth_upd_other by congruence. reflexivity.
+    - intro E; inversion E; subst; clear E. eexists. split; [cbn [mon_run]; rewrite Hgone; reflexivity|]. split.
+      + unfold R, open_ok in *. cbn. rewrite Ein in *. repeat split; auto. intros C0. discriminate.
+      + split; [apply keeps_same_rq; reflexivity|auto].
+  Qed.
+
+  Lemma react1_spec sync : react_spec (react1 sync).
+  Proof.
+    intros ex s m i a s' evs HR Hc. destruct a; try (apply (react0_spec sync); assumption).
+    unfold react1. destruct sync.
+    - destruct (lose0 true (mark_closing s)) as [s1 e1] eqn:El. intro E; inversion E; subst; clear E.
+      assert (R0' : R ex (mark_closing s) m) by (eapply R_ctl; [exact HR|reflexivity|repeat split]).
+      destruct (lose0_sim true ex _ m _ _ R0' El) as (m1 & A1 & R1 & K1 & P1).
+      exists m1. split; [cbn [mon_run mon_step]; exact A1|]. split; [exact R1|]. split.
+      + eapply keeps_trans; [apply (keeps_same_rq s (mark_closing s)); reflexivity|exact K1].
+      + intros j Hj. apply (P1 j). exact Hj.
+    - intro E; inversion E; subst. exists m. split; [reflexivity|]. split; [exact HR|]. split; [apply keeps_refl|auto].
+  Qed.
+
+  Lemma fire_sim sync ex s m i (ok : bool) r : R (i :: ex) s m -> nth_error (s_rq s) i = Some r ->
+    (if ok then r_finished r else r_disc r) = true ->
+    exists m', mon_run m (snd (fire sync i ok s)) = Some m' /\ R ex (fst (fire sync i ok s)) m' /\ keeps s (fst (fire sync i ok s)).
+  Proof.
+    intros HR Hi Hok. unfold fire. rewrite Hi.
+    destruct (fire1 sync i ok (r_pending r) s) as [s1 e1] eqn:Ef. cbn [fst snd].
+    assert (Hp : pend_of s i = Some (r_pending r)) by (unfold pend_of; rewrite Hi; reflexivity).
+    assert (Hf : flag_ok s i ok) by (exists r; auto).
+    destruct (fire_list_sim (react1 sync) (react1_spec sync) _ _ _ _ _ _ _ _ HR (or_introl eq_refl) Hp Hf Ef)
+      as (m1 & A1 & R1 & K1 & P1 & _).
+    exists m1. split; [exact A1|]. split; [|exact K1].
+    apply (R_shrink i); [exact R1|]. intros r1 H1. unfold pend_of in P1. rewrite H1 in P1. cbn in P1. congruence.
+  Qed.
+
+(** ---------- notifyFinish / write / (un)registerProducer / refused finish ---------- *)
+
+Lemma K_of ex s m i r : R ex s m -> nth_error (s_rq s) i = Some r -> forall d, In d (map fst (r_pending r)) -> d < r_ndef r.
+Proof. unfold R. intros (_ & _ & _ & _ & _ & _ & _ & HK & _) Hi. exact (HK i r Hi). Qed.
+
+Lemma F_of ex s m i r : R ex s m -> nth_error (s_rq s) i = Some r -> ~ In i ex -> r_finished r || r_disc r = true -> r_pending r = [].
+Proof. unfold R. intros (_ & _ & _ & _ & HF & _) Hi. exact (HF i r Hi). Qed.
+
+Lemma app_simple_sim sync ex s m i a s' evs :
+  R ex s m -> ~ In i ex -> app_simple sync i a s = Some (s', evs) ->
+  exists m', mon_run m evs = Some m' /\ R ex s' m' /\ keeps s s'.
+Proof.
+  intros HR Hex. unfold app_simple. destruct (nth_error (s_rq s) i) as [r|] eqn:Hi.
+  2:{ intro H; inversion H; subst. exists m. split; [reflexivity|]. split; [exact HR|apply keeps_refl]. }
+  pose proof (mon_nth _ _ _ _ _ HR Hi) as Hmi. pose proof (nth_some_lt _ _ _ Hi) as Hlt.
+  assert (Hsame : exists m', mon_run m [] = Some m' /\ R ex s m' /\ keeps s s)
+    by (exists m; split; [reflexivity|]; split; [exact HR|apply keeps_refl]).
+  destruct a as [re| | | |].
+  - (* notifyFinish *)
+    destruct (r_disc r || r_finished r) eqn:Elate.
+    + (* after completion: fires at once, and its reaction runs *)
+      assert (Hc : completed s i) by (exists r; auto).
+      destruct (notify_now i s) as [s1 e1] eqn:E1. destruct (run_react1 sync i re s1) as [s2 e2] eqn:E2.
+      intro H; inversion H; subst; clear H.
+      destruct (notify_now_sim _ _ _ _ _ _ HR Hc E1) as (m1 & A1 & R1 & K1 & _).
+      destruct (run_react_sim (react1 sync) (react1_spec sync) re _ _ _ _ _ _ R1 (keeps_completed _ _ _ K1 Hc) E2)
+        as (m2 & A2 & R2 & K2 & _).
+      exists m2. split; [rewrite mon_run_app, A1; exact A2|]. split; [exact R2|eapply keeps_trans; eauto].
+    + intro H; inversion H; subst; clear H. apply orb_false_iff in Elate as [E1 E2].
+      cbn [mon_run mon_step]. rewrite Hmi. cbn [abs x_ndef x_fin x_lost x_pend]. rewrite Nat.eqb_refl.
+      eexists. split; [reflexivity|]. split.
+      * eapply (R_upd ex s m _ _ i r);
+          [exact HR|exact Hi|reflexivity|apply same_ctl_set_rq| |reflexivity|reflexivity|reflexivity|reflexivity|reflexivity| | | | ].
+        -- cbn [m_rq with_rq]. unfold abs. cbn [r_finished r_disc r_ndef r_pending]. rewrite map_app. reflexivity.
+        -- intros Hop. cbn. exact (open_facts _ _ _ _ _ HR Hi Hop).
+        -- intros _. cbn. auto.
+        -- intros _. cbn [r_finished r_disc]. rewrite E1, E2. discriminate.
+        -- intros d. cbn [r_pending r_ndef]. rewrite map_app, in_app_iff. cbn. intros [Hd|[<-|[]]]; [pose proof (K_of _ _ _ _ _ HR Hi d Hd)|]; lia.
+      * eapply keeps_upd; [exact Hi|reflexivity|cbn; auto|cbn; auto].
+  - (* write *)
+    destruct (r_finished r) eqn:Ef.
+    { intro H; inversion H; subst. exists m. split; [reflexivity|]. split; [exact HR|apply keeps_refl]. }
+    destruct (r_disc r) eqn:Ed.
+    { intro H; inversion H; subst. exact Hsame. }
+    destruct (live_is_open _ _ _ _ _ HR Hi Ef) as (Hop & Hh & Hd & Hn & _).
+    assert (HK := K_of _ _ _ _ _ HR Hi).
+    unfold do_head. destruct (r_started r) eqn:Es; intro H; inversion H; subst; clear H.
+    + cbn [app mon_run mon_step]. rewrite (is_open_true _ _ Hop), Hh, Hd, Ed, Hn, Nat.eqb_refl. cbn [andb negb].
+      eexists. split; [reflexivity|]. split.
+      * eapply (R_upd ex s m _ _ i r);
+          [exact HR|exact Hi|reflexivity|apply same_ctl_set_rq| |reflexivity|reflexivity|reflexivity| | | | | | ].
+        -- cbn [m_rq]. unfold abs. cbn. rewrite upd_nth_same; [reflexivity|]. rewrite Hmi. unfold abs. rewrite ?Ef, ?Ed. reflexivity.
+        -- cbn. congruence.
+        -- cbn. congruence.
+        -- intros _. cbn. rewrite ?Hn. auto.
+        -- intros C. congruence.
+        -- intros _. cbn [r_finished r_disc]. rewrite ?Ef, ?Ed. discriminate.
+        -- exact HK.
+      * eapply keeps_upd; [exact Hi|reflexivity|cbn; congruence|cbn; congruence].
+    + cbn [app mon_run mon_step]. rewrite (is_open_true _ _ Hop), Hh, Hd, Ed. cbn [andb negb m_open m_head m_dead m_nw is_open].
+      unfold is_open. cbn [m_open]. rewrite Hop, Nat.eqb_refl, Hn, Nat.eqb_refl. cbn [andb negb].
+      eexists. split; [reflexivity|]. split.
+      * eapply (R_upd ex s m _ _ i r);
+          [exact HR|exact Hi|reflexivity|apply same_ctl_set_rq| | |reflexivity|reflexivity| | | | | | ].
+        -- cbn [m_rq]. unfold abs. cbn. rewrite upd_nth_same; [reflexivity|]. rewrite Hmi. unfold abs. rewrite ?Ef, ?Ed. reflexivity.
+        -- cbn. congruence.
+        -- cbn. congruence.
+        -- cbn. congruence.
+        -- intros _. cbn. rewrite ?Hn. auto.
+        -- intros C. congruence.
+        -- intros _. cbn [r_finished r_disc]. rewrite ?Ef, ?Ed. discriminate.
+        -- exact HK.
+      * eapply keeps_upd; [exact Hi|reflexivity|cbn; congruence|cbn; congruence].
+  - (* finish that does not go through *)
+    destruct (r_disc r); [intro H; inversion H; subst; exists m; split; [reflexivity|]; split; [exact HR|apply keeps_refl]|].
+    destruct (r_finished r); [intro H; inversion H; subst; exact Hsame|discriminate].
+  - (* registerProducer *)
+    destruct (r_prod r || s_cprod s || r_finished r || r_disc r);
+      intro H; inversion H; subst; clear H; exists m; (split; [reflexivity|]); [split; [exact HR|apply keeps_refl]|].
+    split; [|eapply keeps_upd; [exact Hi|reflexivity|cbn; auto|cbn; auto]].
+    eapply (R_upd ex s m _ m i r);
+      [exact HR|exact Hi|reflexivity|repeat split| |reflexivity|reflexivity|reflexivity|reflexivity|reflexivity| | | | ].
+    + unfold abs. cbn. rewrite upd_nth_same; [reflexivity|]. rewrite Hmi. reflexivity.
     + intros Hop. cbn. exact (open_facts _ _ _ _ _ HR Hi Hop).
-    + intros _. cbn. auto.
-  - intros r'. cbn [s_rq set_rq]. rewrite nth_upd_same by (eapply nth_some_lt, Hi). intro E. inversion E. reflexivity.
+    + auto.
+    + intros _ Hc. exact (F_of _ _ _ _ _ HR Hi Hex Hc).
+    + exact (K_of _ _ _ _ _ HR Hi).
+  - (* unregisterProducer *)
+    destruct (r_finished r || r_disc r);
+      intro H; inversion H; subst; clear H; exists m; (split; [reflexivity|]); [split; [exact HR|apply keeps_refl]|].
+    split; [|eapply keeps_upd; [exact Hi|reflexivity|cbn; auto|cbn; auto]].
+    eapply (R_upd ex s m _ m i r);
+      [exact HR|exact Hi|reflexivity|repeat split| |reflexivity|reflexivity|reflexivity|reflexivity|reflexivity| | | | ].
+    + unfold abs. cbn. rewrite upd_nth_same; [reflexivity|]. rewrite Hmi. reflexivity.
+    + intros Hop. cbn. exact (open_facts _ _ _ _ _ HR Hi Hop).
+    + auto.
+    + intros _ Hc. exact (F_of _ _ _ _ _ HR Hi Hex Hc).
+    + exact (K_of _ _ _ _ _ HR Hi).
+Qed.
+
+Lemma app_simple_none sync i a s : app_simple sync i a s = None ->
+  exists r, nth_error (s_rq s) i = Some r /\ r_disc r = false /\ r_finished r = false.
+Proof.
+  unfold app_simple. destruct (nth_error (s_rq s) i) as [r|]; [|discriminate].
+  destruct a as [re| | | |].
+  - destruct (r_disc r || r_finished r); [|discriminate].
+    destruct (notify_now i s). destruct (run_react1 sync i re s0). discriminate.
+  - destruct (r_finished r); [discriminate|]. destruct (r_disc r); [discriminate|]. destruct (do_head i r). discriminate.
+  - destruct (r_disc r) eqn:E1; [discriminate|]. destruct (r_finished r) eqn:E2; [discriminate|]. intros _. exists r. auto.
+  - destruct (r_prod r || s_cprod s || r_finished r || r_disc r); discriminate.
+  - destruct (r_finished r || r_disc r); discriminate.
 Qed.
 
 (** ---------- Request.finish up to requestDone ---------- *)
 
 Section Sim.
   Variable eager : N.
+  Variable sync : bool.
   Variable reqs : list reqspec.
 
   Lemma finish_core_sim ex s m i r s' evs :
     R ex s m -> nth_error (s_rq s) i = Some r -> r_finished r = false -> r_disc r = false ->
-    finish_core reqs i r s = (s', evs) ->
+    finish_core sync reqs i r s = (s', evs) ->
     exists m', mon_run m evs = Some m' /\ R (i :: ex) s' m' /\
                (exists r', nth_error (s_rq s') i = Some r' /\ r_finished r' = true) /\
-               length (s_rq s') = length (s_rq s) /\ s_lost s' = s_lost s /\ s_inchan s' = false /\
-               s_recv s' = s_recv s /\ s_cons s' = s_cons s.
+               length (s_rq s') = length (s_rq s) /\ keeps s s'.
   Proof.
     intros HR Hi Hf Hd. destruct (live_is_open _ _ _ _ _ HR Hi Hf) as (Hop & Hh & Hdd & Hn & HS).
     pose proof (mon_nth _ _ _ _ _ HR Hi) as Hmi. pose proof (nth_some_lt _ _ _ Hi) as Hlt.
     unfold finish_core.
-    (* the monitor after the head (if needed) and the terminator *)
-    set (m1 := mkMon (upd (m_rq m) i (mkM true false (r_ndef r) (r_pending r))) None false false 0 (m_paused m)).
+    set (m1 := mkMon (upd (m_rq m) i (mkM true false (r_ndef r) (map fst (r_pending r)))) None false false 0 (m_paused m) (m_gone m)).
     assert (Hrun1 : forall r1 e1, do_head i r = (r1, e1) ->
               mon_run m (e1 ++ [EEnd i]) = Some m1 /\ r_disc r1 = r_disc r /\ r_pending r1 = r_pending r /\
               r_ndef r1 = r_ndef r /\ r_nw r1 = r_nw r /\ r_prod r1 = r_prod r).
@@ -306,13 +576,14 @@ Section Sim.
     set (r2 := mkRq true true (r_disc r1) (r_pending r1) (r_ndef r1) (r_nw r1) false).
     assert (Hm1rq : m_rq m1 = map abs (upd (s_rq s) i r2)).
     { unfold m1. cbn [m_rq]. rewrite map_upd, (proj1 HR). f_equal. unfold abs, r2. cbn. rewrite Hd1, Hnd1, Hp1, Hd. reflexivity. }
-    destruct HR as (Hrq & Ho & HC & HD & HF & HG & HJ).
+    pose proof HR as (Hrq & Ho & HC & HD & HF & HG & HJ & HK & HL).
     assert (Hcommon : forall hand (m2 : mon), m_rq m2 = m_rq m1 -> m_open m2 = None ->
                (hand = false -> s_waiting s = false -> m_paused m2 = false) ->
                forall s2, s_rq s2 = upd (s_rq s) i r2 -> s_inchan s2 = false -> s_handling s2 = hand ->
-                          s_waiting s2 = s_waiting s -> s_lost s2 = s_lost s ->
+                          s_waiting s2 = s_waiting s -> (s_lost s2 = false -> s_lost s = false) -> m_gone m2 = s_lost s2 ->
                R (i :: ex) s2 m2).
-    { intros hand m2 E1 E2 E3 s2 S1 S2 S3 S4 S5. unfold R. repeat split.
+    { intros hand m2 E1 E2 E3 s2 S1 S2 S3 S4 S5 S6. unfold R.
+      refine (conj _ (conj _ (conj _ (conj _ (conj _ (conj _ (conj _ (conj _ _)))))))).
       - rewrite E1, S1. exact Hm1rq.
       - unfold open_ok. rewrite E2. exact S2.
       - intros j rj Hj. rewrite S1 in Hj. right. destruct (Nat.eq_dec j i) as [->|Hne].
@@ -322,119 +593,85 @@ Section Sim.
       - intros j rj Hj Hex Hc. rewrite S1 in Hj. destruct (Nat.eq_dec j i) as [->|Hne]; [exfalso; apply Hex; left; reflexivity|].
         rewrite nth_upd_other in Hj by congruence. apply (HF j rj Hj); [|exact Hc]. intro E. apply Hex. right. exact E.
       - rewrite S3, S4. exact E3.
-      - rewrite S5. intros Hl j rj Hj. rewrite S1 in Hj. destruct (Nat.eq_dec j i) as [->|Hne].
+      - intros Hl j rj Hj. rewrite S1 in Hj. destruct (Nat.eq_dec j i) as [->|Hne].
         + rewrite nth_upd_same in Hj by exact Hlt. inversion Hj; subst rj. cbn. rewrite Hd1. exact Hd.
-        + rewrite nth_upd_other in Hj by congruence. exact (HJ Hl j rj Hj). }
+        + rewrite nth_upd_other in Hj by congruence. exact (HJ (S5 Hl) j rj Hj).
+      - intros j rj Hj. rewrite S1 in Hj. destruct (Nat.eq_dec j i) as [->|Hne].
+        + rewrite nth_upd_same in Hj by exact Hlt. inversion Hj; subst rj. cbn [r2 r_pending r_ndef]. rewrite Hp1, Hnd1. exact (HK i r Hi).
+        + rewrite nth_upd_other in Hj by congruence. exact (HK j rj Hj).
+      - exact S6. }
     assert (Hfacts : (exists r', nth_error (upd (s_rq s) i r2) i = Some r' /\ r_finished r' = true) /\
                      length (upd (s_rq s) i r2) = length (s_rq s)).
     { rewrite upd_length, nth_upd_same by exact Hlt. split; [exists r2; split; reflexivity|reflexivity]. }
+    assert (Hkeep : forall s2, s_rq s2 = upd (s_rq s) i r2 -> keeps s s2).
+    { intros s2 E. eapply keeps_upd; [exact Hi|exact E|reflexivity|]. cbn. rewrite Hd1. auto. }
     assert (Hnohand : s_handling s = false -> False).
     { intros Hh0. pose proof (HD Hh0) as C0. unfold open_ok in Ho. rewrite Hop in Ho. destruct Ho as [C _]. congruence. }
-    destruct (q_persist (spec_of reqs i)); destruct (s_waiting s) eqn:Ew; intro E; inversion E; subst; clear E;
-      cbn [app] in *.
-    - exists m1. split; [rewrite ?app_nil_r; exact Hr1|]. split.
-      + eapply (Hcommon false m1); cbn; try reflexivity; try congruence; intros _ C; congruence.
-      + destruct Hfacts as [A B]. cbn. repeat split; auto.
-    - exists (mkMon (m_rq m1) None false false 0 false). split.
-      + change (e1 ++ [EEnd i; ENetResume]) with (e1 ++ [EEnd i] ++ [ENetResume]). rewrite app_assoc, mon_run_app, Hr1. reflexivity.
-      + split; [eapply (Hcommon false); cbn; try reflexivity; try congruence; auto|].
-        destruct Hfacts as [A B]. cbn. repeat split; auto.
-    - exists m1. split.
-      + change (e1 ++ [EEnd i; EClose]) with (e1 ++ [EEnd i] ++ [EClose]). rewrite app_assoc, mon_run_app, Hr1. reflexivity.
-      + split; [eapply (Hcommon (s_handling s) m1); cbn; try reflexivity; try congruence; intros C; exfalso; exact (Hnohand C)|].
-        destruct Hfacts as [A B]. cbn. repeat split; auto.
-    - exists (mkMon (m_rq m1) None false false 0 false). split.
-      + change (e1 ++ [EEnd i; ENetResume; EClose]) with (e1 ++ [EEnd i] ++ [ENetResume; EClose]).
-        rewrite app_assoc, mon_run_app, Hr1. reflexivity.
-      + split; [eapply (Hcommon (s_handling s)); cbn; try reflexivity; try congruence; auto|].
-        destruct Hfacts as [A B]. cbn. repeat split; auto.
+    destruct (q_persist (spec_of reqs i)).
+    - (* persistent *)
+      destruct (s_waiting s) eqn:Ew; intro E; inversion E; subst; clear E; cbn [app] in *.
+      + exists m1. split; [rewrite ?app_nil_r; exact Hr1|]. split.
+        * eapply (Hcommon false m1); cbn; try reflexivity; try congruence; try (intros _ C; congruence); try exact HL.
+        * destruct Hfacts as [A B]. cbn [s_rq]. split; [exact A|]. split; [exact B|]. apply Hkeep. reflexivity.
+      + exists (mkMon (m_rq m1) None false false 0 false (m_gone m)). split.
+        * change (e1 ++ [EEnd i; ENetResume]) with (e1 ++ [EEnd i] ++ [ENetResume]). rewrite app_assoc, mon_run_app, Hr1. reflexivity.
+        * split; [eapply (Hcommon false); cbn; try reflexivity; try congruence; auto|].
+          destruct Hfacts as [A B]. cbn [s_rq]. split; [exact A|]. split; [exact B|]. apply Hkeep. reflexivity.
+    - (* Connection: close *)
+      destruct (sync && negb (s_lost s)) eqn:Esl.
+      + (* the transport reports the loss at once *)
+        apply andb_true_iff in Esl as [_ El]. apply negb_true_iff in El.
+        assert (Hg : m_gone m = false) by congruence.
+        destruct (s_waiting s) eqn:Ew; intro E; inversion E; subst; clear E; cbn [app] in *.
+        * exists (mkMon (m_rq m1) None false false 0 (m_paused m) true). split.
+          -- change (e1 ++ [EEnd i; EClose; EGone]) with (e1 ++ [EEnd i] ++ [EClose; EGone]).
+             rewrite app_assoc, mon_run_app, Hr1. cbn [mon_run mon_step m_gone m1]. rewrite Hg. reflexivity.
+          -- split; [eapply (Hcommon (s_handling s)); cbn; try reflexivity; try congruence; try (intros C; exfalso; exact (Hnohand C))|].
+             destruct Hfacts as [A B]. cbn [s_rq]. split; [exact A|]. split; [exact B|]. apply Hkeep. reflexivity.
+        * exists (mkMon (m_rq m1) None false false 0 false true). split.
+          -- change (e1 ++ [EEnd i; ENetResume; EClose; EGone]) with (e1 ++ [EEnd i] ++ [ENetResume; EClose; EGone]).
+             rewrite app_assoc, mon_run_app, Hr1. cbn [mon_run mon_step m_gone m1]. rewrite Hg. reflexivity.
+          -- split; [eapply (Hcommon (s_handling s)); cbn; try reflexivity; try congruence; auto|].
+             destruct Hfacts as [A B]. cbn [s_rq]. split; [exact A|]. split; [exact B|]. apply Hkeep. reflexivity.
+      + destruct (s_waiting s) eqn:Ew; intro E; inversion E; subst; clear E; cbn [app] in *.
+        * exists m1. split.
+          -- change (e1 ++ [EEnd i; EClose]) with (e1 ++ [EEnd i] ++ [EClose]). rewrite app_assoc, mon_run_app, Hr1. reflexivity.
+          -- split; [eapply (Hcommon (s_handling s) m1); cbn; try reflexivity; try congruence; try (intros C; exfalso; exact (Hnohand C)); try exact HL|].
+             destruct Hfacts as [A B]. cbn [s_rq]. split; [exact A|]. split; [exact B|]. apply Hkeep. reflexivity.
+        * exists (mkMon (m_rq m1) None false false 0 false (m_gone m)). split.
+          -- change (e1 ++ [EEnd i; ENetResume; EClose]) with (e1 ++ [EEnd i] ++ [ENetResume; EClose]).
+             rewrite app_assoc, mon_run_app, Hr1. reflexivity.
+          -- split; [eapply (Hcommon (s_handling s)); cbn; try reflexivity; try congruence; auto|].
+             destruct Hfacts as [A B]. cbn [s_rq]. split; [exact A|]. split; [exact B|]. apply Hkeep. reflexivity.
   Qed.
 End Sim.
 
-(** ---------- finished requests stay finished, the list of requests only grows ---------- *)
-
-Definition keeps (s s' : st) : Prop :=
-  length (s_rq s) <= length (s_rq s') /\
-  forall j r, nth_error (s_rq s) j = Some r -> r_finished r = true ->
-              exists r', nth_error (s_rq s') j = Some r' /\ r_finished r' = true.
-
-Lemma keeps_refl s : keeps s s.
-Proof. split; [lia|]. intros j r H F. exists r. auto. Qed.
-
-Lemma keeps_trans a b c : keeps a b -> keeps b c -> keeps a c.
-Proof.
-  intros [L1 K1] [L2 K2]. split; [lia|]. intros j r H F. destruct (K1 j r H F) as (r1 & H1 & F1). exact (K2 j r1 H1 F1).
-Qed.
-
-Lemma keeps_upd s s' i r r' : nth_error (s_rq s) i = Some r -> s_rq s' = upd (s_rq s) i r' ->
-  (r_finished r = true -> r_finished r' = true) -> keeps s s'.
-Proof.
-  intros Hi Hs Hf. split; [rewrite Hs, upd_length; lia|]. intros j rj Hj Fj. rewrite Hs.
-  destruct (Nat.eq_dec j i) as [->|Hne].
-  - rewrite nth_upd_same by (eapply nth_some_lt, Hi). exists r'. split; [reflexivity|]. apply Hf. congruence.
-  - rewrite nth_upd_other by congruence. exists rj. auto.
-Qed.
-
-Lemma app_simple_keeps i a s s' evs : app_simple i a s = Some (s', evs) -> keeps s s'.
-Proof.
-  unfold app_simple. destruct (nth_error (s_rq s) i) as [r|] eqn:Hi; [|intro H; inversion H; apply keeps_refl].
-  destruct a;
-    repeat match goal with |- context [if ?b then _ else _] => destruct b end;
-    try (unfold do_head; destruct (r_started r));
-    intro H; inversion H; subst; try apply keeps_refl;
-    (eapply keeps_upd; [exact Hi|reflexivity|cbn; auto]).
-Qed.
-
-Lemma fire_keeps i ok s : keeps s (fst (fire i ok s)).
-Proof.
-  unfold fire. destruct (nth_error (s_rq s) i) as [r|] eqn:Hi; [|apply keeps_refl]. cbn [fst].
-  eapply keeps_upd; [exact Hi|reflexivity|cbn; auto].
-Qed.
-
-Lemma app_simple_none i a s : app_simple i a s = None ->
-  exists r, nth_error (s_rq s) i = Some r /\ r_disc r = false /\ r_finished r = false.
-Proof.
-  unfold app_simple. destruct (nth_error (s_rq s) i) as [r|]; [|discriminate].
-  destruct a; repeat match goal with |- context [if ?b then _ else _] => destruct b eqn:? end;
-    try (unfold do_head; destruct (r_started r)); try discriminate.
-  all: intros _; exists r; auto.
-Qed.
-
 Section Sim2.
   Variable eager : N.
+  Variable sync : bool.
   Variable reqs : list reqspec.
 
-  Lemma finish_core_keeps i r s s' evs : nth_error (s_rq s) i = Some r ->
-    finish_core reqs i r s = (s', evs) -> keeps s s'.
-  Proof.
-    intros Hi. unfold finish_core, request_done. destruct (do_head i r) as [r1 e1].
-    cbn [s_waiting s_rq]. destruct (q_persist (spec_of reqs i)); intro E; inversion E; subst;
-      (eapply keeps_upd; [exact Hi|reflexivity|cbn; auto]).
-  Qed.
-
   Lemma app_sync_sim ex s m i a s' evs :
-    R ex s m -> ~ In i ex -> app_sync reqs i s a = (s', evs) ->
+    R ex s m -> ~ In i ex -> app_sync sync reqs i s a = (s', evs) ->
     exists m', mon_run m evs = Some m' /\ R ex s' m' /\ keeps s s'.
   Proof.
-    intros HR Hex. unfold app_sync. destruct (app_simple i a s) as [[s1 e1]|] eqn:Ea.
-    - intro E; inversion E; subst. destruct (app_simple_sim _ _ _ _ _ _ _ HR Hex Ea) as (m' & A & B).
-      exists m'. split; [exact A|]. split; [exact B|]. eapply app_simple_keeps, Ea.
-    - destruct (app_simple_none _ _ _ Ea) as (r & Hi & Hd & Hf). rewrite Hi.
-      destruct (finish_core reqs i r s) as [s1 e1] eqn:Ef.
-      destruct (finish_core_sim reqs _ _ _ _ _ _ _ HR Hi Hf Hd Ef) as (m1 & A1 & R1 & (r' & Hi' & Hf') & _).
-      destruct (fire_sim ex s1 m1 i true r' R1 Hi' Hf') as (m2 & A2 & R2).
-      destruct (fire i true s1) as [s2 e2] eqn:Efi. cbn [fst snd] in *. intro E; inversion E; subst.
-      exists m2. split; [rewrite mon_run_app, A1; exact A2|]. split; [exact R2|].
-      eapply keeps_trans; [eapply finish_core_keeps; eauto|]. pose proof (fire_keeps i true s1) as K. rewrite Efi in K. exact K.
+    intros HR Hex. unfold app_sync. destruct (app_simple sync i a s) as [[s1 e1]|] eqn:Ea.
+    - intro E; inversion E; subst. eapply app_simple_sim; eauto.
+    - destruct (app_simple_none _ _ _ _ Ea) as (r & Hi & Hd & Hf). rewrite Hi.
+      destruct (finish_core sync reqs i r s) as [s1 e1] eqn:Ef.
+      destruct (finish_core_sim sync reqs _ _ _ _ _ _ _ HR Hi Hf Hd Ef) as (m1 & A1 & R1 & (r' & Hi' & Hf') & _ & K1).
+      destruct (fire_sim sync ex s1 m1 i true r' R1 Hi' Hf') as (m2 & A2 & R2 & K2).
+      destruct (fire sync i true s1) as [s2 e2] eqn:Efi. cbn [fst snd] in *. intro E; inversion E; subst.
+      exists m2. split; [rewrite mon_run_app, A1; exact A2|]. split; [exact R2|eapply keeps_trans; eauto].
   Qed.
 
   Lemma run_script_sim ex i acts : forall s m s' evs,
-    R ex s m -> ~ In i ex -> run_script reqs i acts s = (s', evs) ->
+    R ex s m -> ~ In i ex -> run_script sync reqs i acts s = (s', evs) ->
     exists m', mon_run m evs = Some m' /\ R ex s' m' /\ keeps s s'.
   Proof.
     induction acts as [|a acts IH]; intros s m s' evs HR Hex; cbn [run_script].
     - intro E; inversion E; subst. exists m. split; [reflexivity|]. split; [exact HR|apply keeps_refl].
-    - destruct (app_sync reqs i s a) as [s1 e1] eqn:E1. destruct (run_script reqs i acts s1) as [s2 e2] eqn:E2.
+    - destruct (app_sync sync reqs i s a) as [s1 e1] eqn:E1. destruct (run_script sync reqs i acts s1) as [s2 e2] eqn:E2.
       intro E; inversion E; subst.
       destruct (app_sync_sim _ _ _ _ _ _ _ HR Hex E1) as (m1 & A1 & R1 & K1).
       destruct (IH _ _ _ _ R1 Hex E2) as (m2 & A2 & R2 & K2).
@@ -442,9 +679,9 @@ Section Sim2.
   Qed.
 
   Lemma R_set_paused ex s m b : R ex s m -> s_handling s = true ->
-    R ex s (mkMon (m_rq m) (m_open m) (m_head m) (m_dead m) (m_nw m) b).
+    R ex s (mkMon (m_rq m) (m_open m) (m_head m) (m_dead m) (m_nw m) b (m_gone m)).
   Proof.
-    unfold R, open_ok. intros (A & B & C & D & F & G & J) Hh. cbn. repeat split; auto. intros C0. congruence.
+    unfold R, open_ok. intros (A & B & C & D & F & G & J & K & L) Hh. cbn. repeat split; auto. intros C0. congruence.
   Qed.
 
   Lemma eager_check_sim ex s m : R ex s m -> s_handling s = true ->
@@ -456,7 +693,7 @@ Section Sim2.
   Qed.
 
   Lemma drain_sim ex rest : forall s m s' evs,
-    R ex s m -> (forall j, In j ex -> j < length (s_rq s)) -> drain eager reqs rest s = (s', evs) ->
+    R ex s m -> (forall j, In j ex -> j < length (s_rq s)) -> drain eager sync reqs rest s = (s', evs) ->
     exists m', mon_run m evs = Some m' /\ R ex s' m' /\ keeps s s'.
   Proof.
     induction rest as [|q rest IH]; intros s m s' evs HR Hlt; cbn [drain].
@@ -468,15 +705,15 @@ Section Sim2.
     apply orb_false_iff in Ehl as [Eh El].
     set (n := length (s_rq s)).
     set (s1 := mkSt (s_rq s ++ [rq0]) true true (s_recv s) (s_cons s + q_len q) (s_waiting s) (s_cprod s) (s_closing s) (s_lost s)).
-    set (m1 := mkMon (m_rq m ++ [mkM false false 0 []]) (Some n) false false 0 (m_paused m)).
+    set (m1 := mkMon (m_rq m ++ [mkM false false 0 []]) (Some n) false false 0 (m_paused m) false).
     assert (Hopen : m_open m = None).
     { destruct HR as (_ & Ho & _ & HD & _). unfold open_ok in Ho. destruct (m_open m); [|reflexivity].
       destruct Ho as [C _]. rewrite (HD Eh) in C. discriminate. }
     assert (Hstep : mon_step m (EProcess n) = Some m1).
     { cbn [mon_step]. rewrite Hopen. replace (length (m_rq m)) with n by (rewrite (proj1 HR), map_length; reflexivity).
-      rewrite Nat.eqb_refl. reflexivity. }
+      destruct HR as (_ & _ & _ & _ & _ & _ & _ & _ & HL). rewrite Nat.eqb_refl, HL, El. reflexivity. }
     assert (R1 : R ex s1 m1).
-    { destruct HR as (Hrq & Ho & HC & HD & HF & HG & HJ). pose proof (HD Eh) as Hin.
+    { destruct HR as (Hrq & Ho & HC & HD & HF & HG & HJ & HK & HL). pose proof (HD Eh) as Hin.
       assert (Hsplit : forall j rj, nth_error (s_rq s ++ [rq0]) j = Some rj ->
                 (j < n /\ nth_error (s_rq s) j = Some rj) \/ (j = n /\ rj = rq0)).
       { intros j rj Hj. destruct (Nat.lt_ge_cases j n) as [L|G].
@@ -484,7 +721,7 @@ Section Sim2.
         - rewrite nth_error_app2 in Hj by exact G. fold n in Hj. destruct (j - n) as [|k] eqn:Ek.
           + cbn in Hj. inversion Hj. right. split; [lia|reflexivity].
           + cbn in Hj. destruct k; discriminate. }
-      unfold R. refine (conj _ (conj _ (conj _ (conj _ (conj _ (conj _ _)))))).
+      unfold R. refine (conj _ (conj _ (conj _ (conj _ (conj _ (conj _ (conj _ (conj _ _)))))))).
       - unfold m1, s1. cbn [m_rq s_rq]. rewrite map_app, Hrq. reflexivity.
       - unfold open_ok, m1, s1. cbn [m_open s_inchan s_rq m_head m_dead m_nw]. split; [reflexivity|]. split; [rewrite app_length; cbn; fold n; lia|].
         exists rq0. rewrite nth_error_app2 by (fold n; lia). fold n. rewrite Nat.sub_diag. repeat split.
@@ -499,13 +736,17 @@ Section Sim2.
       - unfold s1. cbn. discriminate.
       - unfold s1. cbn [s_lost s_rq]. intros Hl j rj Hj. destruct (Hsplit j rj Hj) as [[L Hj']|[-> ->]].
         + exact (HJ Hl j rj Hj').
-        + reflexivity. }
+        + reflexivity.
+      - intros j rj Hj. unfold s1 in Hj. cbn [s_rq] in Hj. destruct (Hsplit j rj Hj) as [[L Hj']|[-> ->]].
+        + exact (HK j rj Hj').
+        + intros d [].
+      - unfold m1, s1. cbn. congruence. }
     assert (Hexn : ~ In n ex) by (intro C; apply Hlt in C; unfold n in C; lia).
     assert (K01 : keeps s s1).
-    { split; [unfold s1; cbn [s_rq]; rewrite app_length; lia|]. intros j r Hj Fj. exists r. split; [|exact Fj].
+    { split; [unfold s1; cbn [s_rq]; rewrite app_length; lia|]. intros j r Hj. exists r. split; [|auto].
       unfold s1. cbn [s_rq]. rewrite nth_error_app1 by (eapply nth_some_lt, Hj). exact Hj. }
     fold n. fold s1.
-    destruct (run_script reqs n (q_script q) s1) as [s2 e2] eqn:Es.
+    destruct (run_script sync reqs n (q_script q) s1) as [s2 e2] eqn:Es.
     destruct (run_script_sim _ _ _ _ _ _ _ R1 Hexn Es) as (m2 & A2 & R2 & K12).
     destruct (s_handling s2) eqn:Eh2.
     - intro E; inversion E; subst; clear E.
@@ -515,29 +756,18 @@ Section Sim2.
         cbn [mon_run]. rewrite Hstep, mon_run_app, A2. exact A3.
       + exists m2. split; [|split; [exact R2|eapply keeps_trans; eauto]].
         cbn [mon_run]. rewrite Hstep, app_nil_r. exact A2.
-    - destruct (drain eager reqs rest s2) as [s3 e3] eqn:Ed. intro E; inversion E; subst; clear E.
+    - destruct (drain eager sync reqs rest s2) as [s3 e3] eqn:Ed. intro E; inversion E; subst; clear E.
       assert (Hlt2 : forall j, In j ex -> j < length (s_rq s2)).
       { intros j Hj. apply Hlt in Hj. destruct K01 as [L1 _]. destruct K12 as [L2 _]. lia. }
       destruct (IH _ _ _ _ R2 Hlt2 Ed) as (m3 & A3 & R3 & K23).
       exists m3. split; [|split; [exact R3|eapply keeps_trans; [exact K01|eapply keeps_trans; eauto]]].
       cbn [mon_run]. rewrite Hstep, mon_run_app, A2. exact A3.
   Qed.
-End Sim2.
 
-(** ---------- one operation ---------- *)
-
-Lemma R_ctl ex s m s' : R ex s m -> s_rq s' = s_rq s -> same_ctl s s' -> R ex s' m.
-Proof.
-  unfold R, open_ok. intros (A & B & C & D & F & G & J) E (C1 & C2 & C3 & C4).
-  rewrite E, C1, C2, C3, C4. repeat split; auto.
-Qed.
-
-Section Sim3.
-  Variable eager : N.
-  Variable reqs : list reqspec.
+  (** ---------- one operation ---------- *)
 
   Lemma step_sim s m o s' evs :
-    R [] s m -> step eager reqs s o = (s', evs) ->
+    R [] s m -> step eager sync reqs s o = (s', evs) ->
     exists m', mon_run m evs = Some m' /\ R [] s' m'.
   Proof.
     intros HR. destruct o as [n| | | |i a]; cbn [step].
@@ -551,85 +781,53 @@ Section Sim3.
         * exists m. split; [reflexivity|exact R1].
       + assert (R1 : R [] (mkSt (s_rq s) false (s_inchan s) (s_recv s + n) (s_cons s) (s_waiting s) (s_cprod s) (s_closing s) false) m).
         { eapply R_ctl; [exact HR|reflexivity|]. repeat split; cbn; congruence. }
-        intro E. destruct (drain_sim eager reqs [] _ _ _ _ _ R1 (fun j (H : In j []) => match H with end) E) as (m' & A & B & _).
+        intro E. destruct (drain_sim [] _ _ _ _ _ R1 (fun j (H : In j []) => match H with end) E) as (m' & A & B & _).
         exists m'. auto.
     - (* transport pauses the channel *)
+      destruct (s_lost s) eqn:El; [intro E; inversion E; subst; exists m; split; [reflexivity|exact HR]|].
       intro E; inversion E; subst; clear E.
       assert (Hp : mon_run m (if s_cprod s then [EProdPause (pred (length (s_rq s)))] else []) = Some m)
         by (destruct (s_cprod s); reflexivity).
-      rewrite mon_run_app, Hp. destruct HR as (A & B & C & D & F & G & J).
+      rewrite mon_run_app, Hp. destruct HR as (A & B & C & D & F & G & J & K & L).
       destruct (s_handling s) eqn:Eh; eexists; (split; [reflexivity|]); unfold R, open_ok in *; cbn; repeat split; auto;
-        try (intros; congruence).
+        try (intros; congruence); try (intros _; exact (J El)).
     - (* transport resumes the channel *)
+      destruct (s_lost s) eqn:El; [intro E; inversion E; subst; exists m; split; [reflexivity|exact HR]|].
       intro E; inversion E; subst; clear E.
       assert (Hp : mon_run m (if s_cprod s then [EProdResume (pred (length (s_rq s)))] else []) = Some m)
         by (destruct (s_cprod s); reflexivity).
-      rewrite mon_run_app, Hp. destruct HR as (A & B & C & D & F & G & J).
+      rewrite mon_run_app, Hp. destruct HR as (A & B & C & D & F & G & J & K & L).
       destruct (s_handling s) eqn:Eh; eexists; (split; [reflexivity|]); unfold R, open_ok in *; cbn; repeat split; auto;
-        try (intros; congruence).
+        try (intros; congruence); try (intros _; exact (J El)).
     - (* connection lost *)
-      destruct (s_lost s) eqn:El; [intro E; inversion E; subst; exists m; split; [reflexivity|exact HR]|].
-      destruct (s_inchan s) eqn:Ein.
-      + pose proof HR as (Hrq & Ho & HC & HD & HF & HG & HJ). unfold open_ok in Ho.
-        destruct (m_open m) as [i|] eqn:Hop; [|congruence].
-        destruct Ho as (_ & HS & r & Hi & Hf & Hh & Hd & Hn).
-        replace (pred (length (s_rq s))) with i by lia. rewrite Hi.
-        pose proof (HJ El i r Hi) as Hdisc. pose proof (nth_some_lt _ _ _ Hi) as Hlt.
-        set (r' := mkRq (r_started r) (r_finished r) true (r_pending r) (r_ndef r) (r_nw r) (r_prod r)).
-        set (s2 := set_rq (mkSt (s_rq s) (s_handling s) true (s_recv s) (s_cons s) (s_waiting s) (s_cprod s) (s_closing s) true)
-                          (upd (s_rq s) i r')).
-        set (m2 := mkMon (upd (m_rq m) i (mkM (r_finished r) true (r_ndef r) (r_pending r))) (m_open m) (m_head m) true (m_nw m) (m_paused m)).
-        assert (Hstep : mon_step m (ELost i) = Some m2).
-        { cbn [mon_step]. rewrite (mon_nth _ _ _ _ _ HR Hi), (is_open_true _ _ Hop), Hd, Hdisc. reflexivity. }
-        assert (R2 : R [i] s2 m2).
-        { unfold R. refine (conj _ (conj _ (conj _ (conj _ (conj _ (conj _ _)))))).
-          - unfold m2, s2. cbn [m_rq s_rq set_rq]. rewrite map_upd, Hrq. reflexivity.
-          - unfold open_ok, m2, s2. cbn [m_open s_inchan s_rq set_rq m_head m_dead m_nw]. rewrite Hop, upd_length.
-            split; [reflexivity|]. split; [exact HS|]. exists r'. rewrite nth_upd_same by exact Hlt. repeat split; auto.
-          - intros j rj Hj. unfold s2 in *. cbn [s_rq set_rq s_inchan] in *. rewrite upd_length.
-            destruct (Nat.eq_dec j i) as [->|Hne]; [left; auto|].
-            rewrite nth_upd_other in Hj by congruence.
-            destruct (HC j rj Hj) as [[_ X]|X]; [left; split; [reflexivity|exact X]|right; exact X].
-          - unfold s2. cbn. intros Hh0. rewrite (HD Hh0) in Ein. discriminate.
-          - intros j rj Hj Hex Hc. unfold s2 in Hj. cbn [s_rq set_rq] in Hj.
-            destruct (Nat.eq_dec j i) as [->|Hne]; [exfalso; apply Hex; left; reflexivity|].
-            rewrite nth_upd_other in Hj by congruence. exact (HF j rj Hj (fun f => f) Hc).
-          - unfold s2, m2. cbn. exact HG.
-          - unfold s2. cbn. discriminate. }
-        assert (Hi2 : nth_error (s_rq s2) i = Some r') by (unfold s2; cbn [s_rq set_rq]; apply nth_upd_same, Hlt).
-        destruct (fire_sim [] s2 m2 i false r' R2 Hi2 eq_refl) as (m3 & A3 & R3).
-        fold r'. fold s2. destruct (fire i false s2) as [s3 e3]. cbn [fst snd] in *.
-        intro E; inversion E; subst. exists m3. split; [cbn [mon_run]; rewrite Hstep; exact A3|exact R3].
-      + intro E; inversion E; subst. exists m. split; [reflexivity|].
-        destruct HR as (A & B & C & D & F & G & J). unfold R, open_ok in *. cbn. rewrite Ein in *. repeat split; auto.
-        intros C0. discriminate.
+      intro E. destruct (lose0_sim sync [] _ _ _ _ HR E) as (m' & A & B & _). exists m'. auto.
     - (* the application acts on request i *)
-      destruct (app_simple i a s) as [[s1 e1]|] eqn:Ea.
-      + intro E; inversion E; subst. eapply app_simple_sim; eauto.
-      + destruct (app_simple_none _ _ _ Ea) as (r & Hi & Hd & Hf). rewrite Hi.
-        destruct (finish_core reqs i r s) as [s1 e1] eqn:Ef.
-        destruct (finish_core_sim reqs _ _ _ _ _ _ _ HR Hi Hf Hd Ef) as (m1 & A1 & R1 & (r1 & Hi1 & Hf1) & Hlen & _).
-        destruct (drain eager reqs (remaining reqs s1) s1) as [s2 e2] eqn:Ed.
+      destruct (app_simple sync i a s) as [[s1 e1]|] eqn:Ea.
+      + intro E; inversion E; subst. destruct (app_simple_sim sync [] _ _ _ _ _ _ HR (fun f => f) Ea) as (m' & A & B & _). exists m'. auto.
+      + destruct (app_simple_none _ _ _ _ Ea) as (r & Hi & Hd & Hf). rewrite Hi.
+        destruct (finish_core sync reqs i r s) as [s1 e1] eqn:Ef.
+        destruct (finish_core_sim sync reqs _ _ _ _ _ _ _ HR Hi Hf Hd Ef) as (m1 & A1 & R1 & (r1 & Hi1 & Hf1) & Hlen & _).
+        destruct (drain eager sync reqs (remaining reqs s1) s1) as [s2 e2] eqn:Ed.
         assert (Hlt1 : forall j, In j [i] -> j < length (s_rq s1)).
         { intros j [<-|[]]. rewrite Hlen. eapply nth_some_lt, Hi. }
-        destruct (drain_sim eager reqs [i] _ _ _ _ _ R1 Hlt1 Ed) as (m2 & A2 & R2 & [_ K2]).
-        destruct (K2 i r1 Hi1 Hf1) as (r2 & Hi2 & Hf2).
-        destruct (fire_sim [] s2 m2 i true r2 R2 Hi2 Hf2) as (m3 & A3 & R3).
-        destruct (fire i true s2) as [s3 e3]. cbn [fst snd] in *.
+        destruct (drain_sim [i] _ _ _ _ _ R1 Hlt1 Ed) as (m2 & A2 & R2 & [_ K2]).
+        destruct (K2 i r1 Hi1) as (r2 & Hi2 & Hf2 & _).
+        destruct (fire_sim sync [] s2 m2 i true r2 R2 Hi2 (Hf2 Hf1)) as (m3 & A3 & R3 & _).
+        destruct (fire sync i true s2) as [s3 e3]. cbn [fst snd] in *.
         intro E; inversion E; subst. exists m3. split; [|exact R3].
         rewrite mon_run_app, A1, mon_run_app, A2. exact A3.
   Qed.
 
   Theorem run_sim ops : forall s m, R [] s m ->
-    exists m', mon_ops m (snd (run eager reqs s ops)) = Some m' /\ R [] (fst (run eager reqs s ops)) m'.
+    exists m', mon_ops m (snd (run eager sync reqs s ops)) = Some m' /\ R [] (fst (run eager sync reqs s ops)) m'.
   Proof.
     induction ops as [|o ops IH]; intros s m HR; cbn [run].
     - exists m. split; [reflexivity|exact HR].
-    - destruct (step eager reqs s o) as [s1 e] eqn:Es. destruct (run eager reqs s1 ops) as [s2 es] eqn:Er.
+    - destruct (step eager sync reqs s o) as [s1 e] eqn:Es. destruct (run eager sync reqs s1 ops) as [s2 es] eqn:Er.
       destruct (step_sim _ _ _ _ _ HR Es) as (m1 & A & R1). destruct (IH s1 m1 R1) as (m2 & B & R2). rewrite Er in B, R2.
       cbn [fst snd mon_ops] in *. rewrite A, (R_quiescent _ _ R1). exists m2. auto.
   Qed.
 
-  Corollary every_log_accepted ops : mon_ops mon0 (snd (run eager reqs st0 ops)) <> None.
+  Corollary every_log_accepted ops : mon_ops mon0 (snd (run eager sync reqs st0 ops)) <> None.
   Proof. destruct (run_sim ops st0 mon0 R0) as [m' [H _]]. rewrite H. discriminate. Qed.
-End Sim3.
+End Sim2.
